@@ -65,8 +65,8 @@ def run(ctx):
             n = rep.get("evaluated", 0)
         per[prof] = {"states": r["distinct"], "tables": n}
     if not ctx.quick:
-        s = ctx.tlc("ods", "MC_OdsTable", "MC_OdsTable_sim.cfg", workers=6, simulate=20000, depth=400,
-                    timeout=600, xmx="6g", name="MC_OdsTable_sim")
+        s = ctx.tlc("ods", "MC_OdsTable", "MC_OdsTable_sim.cfg", workers=6, simulate=2000, depth=400,
+                    timeout=240, xmx="6g", name="MC_OdsTable_sim")
         n = 0
         if "REPLAY" in s["tags"]:
             n = ctx.replay("ods", s["tags"]["REPLAY"], timeout=1200).get("evaluated", 0)
